@@ -632,6 +632,17 @@ func runC16(ctx *common.Ctx) error {
 						break
 					}
 				}
+				// the largest UID a client can write (2^32-1) as a range bound: a legal way of saying "up to the end"
+				for _, kind := range []string{"UIDFETCH", "UIDSTORE", "UIDCOPY", "UIDSEARCHUID", "SEARCHUID"} {
+					for _, r := range []string{
+						"1:4294967295", "2:4294967295", "4294967295:1", fmt.Sprintf("%d:4294967295", maxuid),
+						"4294967294:4294967295", fmt.Sprintf("%d,4294967295", uids[0]), fmt.Sprintf("%d:4294967294", uids[0]),
+					} {
+						if _, err := runCase(name, uids, kind, parseSet(r)); err != nil {
+							return err
+						}
+					}
+				}
 				for _, kind := range []string{"UIDFETCH", "UIDSTORE", "UIDCOPY", "UIDSEARCHUID", "SEARCHUID"} {
 					for _, r := range []string{
 						fmt.Sprintf("%d,%d", missing, uids[0]), fmt.Sprintf("%d,%d,%d", uids[0], missing, uids[len(uids)-1]),
